@@ -52,6 +52,8 @@ type Exec struct {
 	funcsHit map[*ssa.Function]bool
 	allocLimit int64
 	onceDone map[*Obj]map[string]bool
+	isSnapshot bool
+	cloner   *cloner
 }
 
 type ufApp struct {
@@ -109,6 +111,21 @@ func (x *Exec) constValue(c *ssa.Const) Value {
 
 func (x *Exec) globalObj(g *ssa.Global) *Obj {
 	if o, ok := x.globals[g]; ok {
+		return o
+	}
+	if !x.isSnapshot {
+		snap := getSnapshot(x.prog, x.cfg)
+		snap.mu.Lock()
+		so := snap.x.globalObj(g)
+		if x.cloner == nil {
+			x.cloner = newCloner()
+		}
+		o := x.cloner.obj(so)
+		for _, n := range snap.x.ps.notes {
+			x.ps.note(n)
+		}
+		snap.mu.Unlock()
+		x.globals[g] = o
 		return o
 	}
 	// allocate all globals of the package zeroed, then run init lazily
@@ -280,7 +297,7 @@ func cutPrefix(key string) bool {
 }
 
 var cutPackages = []string{
-	"fmt.", "log.", "os.", "net.", "reflect.", "runtime.", "syscall.", "encoding/json.",
+	"fmt.", "log.", "os.", "net.Dial", "net.Listen", "net.Lookup", "reflect.", "runtime.", "syscall.", "encoding/json.",
 	"github.com/sirupsen/logrus.", "github.com/op/go-logging.", "regexp.", "text/template.",
 	"internal/poll.", "internal/godebug.", "crypto/internal/fips140", "crypto/internal/boring",
 }
@@ -295,6 +312,14 @@ func (x *Exec) runFrame(fr *frame) (result Value) {
 		}
 		gp, ok := r.(*goPanic)
 		if !ok {
+			switch e := r.(type) {
+			case string:
+				panic(unsupported{"ENGINE-BUG " + e + " @ " + x.stackString(fr)})
+			case error:
+				if _, isU := r.(unsupported); !isU {
+					panic(unsupported{"ENGINE-BUG " + e.Error() + " @ " + x.stackString(fr)})
+				}
+			}
 			panic(r)
 		}
 		if gp.stack == "" {
@@ -1495,8 +1520,18 @@ func (x *Exec) rangeNext(fr *frame, i *ssa.Next) Value {
 		if it.pos >= len(it.str.b) {
 			return Tuple{constFalse, mkBV(64, 0), mkBV(32, 0)}
 		}
-		// decode a rune at pos
-		r, size := x.decodeRune(it.str.b[it.pos:])
+		// decode a rune at pos by executing the real utf8.DecodeRuneInString
+		rest := &Str{b: it.str.b[it.pos:]}
+		var r *Term
+		var size int
+		if rest.b[0].isConst() && rest.b[0].k < 0x80 {
+			r, size = mkBV(32, rest.b[0].k), 1
+		} else {
+			dec := x.findFunc("unicode/utf8", "DecodeRuneInString")
+			tu := x.callFunction(dec, []Value{rest}, nil, fr).(Tuple)
+			r = termOf(tu[0])
+			size = int(x.ps.concretize(termOf(tu[1]), "rune size"))
+		}
 		pos := it.pos
 		it.pos += size
 		return Tuple{constTrue, mkBV(64, uint64(pos)), r}
